@@ -565,13 +565,16 @@ func (s *state) visitForRange(node *ast.ForNode) {
 		limit = rangeNode.Args[0]
 	}
 
+	// (the bounds are translated before the loop variable is bound: they may
+	// refer to an outer variable of the same name.)
+	var limitJs, initJs, incrementJs = s.block(limit), s.block(init), s.block(increment)
 	var varIndex,
 		varLimit = s.scope.pushForRange(node.Var)
 	defer s.scope.pop()
-	s.jsln("var ", varLimit, " = ", limit, ";")
-	s.jsln("for (var ", varIndex, " = ", init, "; ",
+	s.jsln("var ", varLimit, " = ", limitJs, ";")
+	s.jsln("for (var ", varIndex, " = ", initJs, "; ",
 		varIndex, " < ", varLimit, "; ",
-		varIndex, " += ", increment, ") {")
+		varIndex, " += ", incrementJs, ") {")
 	s.indentLevels++
 	s.walk(node.Body)
 	s.indentLevels--
